@@ -357,6 +357,11 @@ H("conn_peer_params_cid_auth_native", ["C14", "C04"], "replay-only", "connection
   [("server", "bool"), ("which", "u8")], 4, [], ["Connection::handle_peer_params"], "native replay body of E2 query e2_peer_params_cid_auth")
 
 # ------------------------------------------------------------------ transport_parameters.rs (C10, C03.e)
+H("tp_preferred_address_read", ["C10", "C03"], "quick", "transport_parameters::preferred_address_read",
+  [("buf", "[u8; 64]"), ("len", "usize")], 22,
+  ["decoded", "decoded with a 20-byte CID", "Malformed", "IllegalValue"],
+  ["PreferredAddress::read", "PreferredAddress::write", "PreferredAddress::wire_size", "ConnectionId::new"],
+  "every buffer of 0..=64 bytes (every CID length byte, every address / port / token content); decoded fields compared at their first and last byte")
 H("tp_roundtrip_ints", ["C10"], "thorough", "transport_parameters::roundtrip_ints", [("v", "[u16; 11]"), ("server", "bool")], 24,
   ["round-tripped"], ["TransportParameters::write", "TransportParameters::read", "TransportParameters::default"],
   "all 11 integer parameters present with arbitrary values of fixed varint width (64..16383; ack_delay_exponent 0..=20 except the default); default write order", heavy=True, timeout=1700)
